@@ -199,7 +199,9 @@ def replay_option_cycle(fam, opts_seq, workroot: Path, tag, fault_at=None):
                 env = _fault_env(fault) if fault else {}
                 rc, out = sb.run(fam.args([src_rel(s) for s in present], opt), env=env)
                 if fault:
-                    if rc == 0:
+                    # the fault fires only if that step runs at all (it may be up to date from the previous option value)
+                    injected = "NEV injected failure" in out
+                    if rc == 0 and injected:
                         problems.append({"kind": "exit", "detail": f"step {i} ({opt}): a failing step at {fault['out']} yet exit 0"})
                     continue
                 if rc != 0:
